@@ -15,7 +15,7 @@ PROP = "C07"
 META = dict(
     category="other",
     technique="Coq size/capacity theorems (ring-buffer storage constant, capacity trace of the modelled graph processor) + coqc-evaluated capacity model vs Processor::verif_capacities() + counting-allocator observation of the API surface",
-    text="Coq proves the logical half (12 theorems): every history of Bounded/Fixed operations leaves the backing storage length unchanged (corollary of the C06 refinement); the bus backlog length equals the maximum lag over live outputs and, under lock-step pulling with drops/re-attachments between rounds, is empty at every round boundary and never exceeds one frame (corollaries of the C13 model); the push/pop/clear scripts that one Processor::process call applies to its DFS stack and inputs vectors are a function of (graph, output node) only and faithful to the C09 traversal model, so after ONE call every further call on the same graph reallocates neither vector (any multigraph, no size bound), with high-water marks 1+|E| (tight) and max in-degree, and with_capacity covering them never reallocates; the same on the capacity trace of the modelled process itself (the C09 traversal with the DFS stack, the inputs list and the FixedBitSet block vectors as (len, cap) pairs): a second call from the same node on any graph of the same shape changes no capacity, a call from any node of any graph whose needs are within what is reserved changes none either, while the reading 'from any node of a graph of that size' is refuted by a witness (a first call from a shallow node, then one from a deep node grows the stack) that the check reproduces on the crate through Processor::verif_capacities(). The capacity model is tied to the crate by running it inside coqc on random build-and-process scripts (Graph and StableGraph, removals, growth between calls, one processor per script) and comparing, after every call, both capacities and the number of allocations+reallocations and of frees of that call. That an operation performs no allocation is a runtime fact no Coq model can exhibit; it is observed with a counting GlobalAlloc over 67 scenarios covering sample/frame/slice/ring-buffer/peak/RMS/envelope/interpolation/window/signal sources and adaptors/fork/buffered/converter/windower/graph processing with stock nodes, with the documented exceptions (bus, by_rc creation, boxed conversions) checked for boundedness/balance instead. This is labelled 'other', not proof.",
+    text="Coq proves the logical half (23 theorems): every history of Bounded/Fixed operations leaves the backing storage length unchanged (corollary of the C06 refinement); the bus backlog length equals the maximum lag over live outputs and, under lock-step pulling with drops/re-attachments between rounds, is empty at every round boundary and never exceeds one frame (corollaries of the C13 model); the push/pop/clear scripts that one Processor::process call applies to its DFS stack and inputs vectors are a function of (graph, output node) only and faithful to the C09 traversal model, so after ONE call every further call on the same graph reallocates neither vector (any multigraph, no size bound), with high-water marks 1+|E| (tight) and max in-degree, and with_capacity covering them never reallocates; the same on the capacity trace of the modelled process itself (the C09 traversal with the DFS stack, the inputs list and the FixedBitSet block vectors as (len, cap) pairs): a second call from the same node on any graph of the same shape changes no capacity, a call from any node of any graph whose needs are within what is reserved changes none either, while the reading 'from any node of a graph of that size' is refuted by a witness (a first call from a shallow node, then one from a deep node grows the stack) that the check reproduces on the crate through Processor::verif_capacities(). The capacity model is tied to the crate by running it inside coqc on random build-and-process scripts (Graph and StableGraph, removals, growth between calls, one processor per script) and comparing, after every call, both capacities and the number of allocations+reallocations and of frees of that call. That an operation performs no allocation is a runtime fact no Coq model can exhibit; it is observed with a counting GlobalAlloc over 67 scenarios covering sample/frame/slice/ring-buffer/peak/RMS/envelope/interpolation/window/signal sources and adaptors/fork/buffered/converter/windower/graph processing with stock nodes, with the documented exceptions (bus, by_rc creation, boxed conversions) checked for boundedness/balance instead. This is labelled 'other', not proof.",
     note="Trusted: Coq kernel for the capacity theorems; for the allocator half the harness's scenario list is the coverage: an allocation reachable only through an API call or input class the scenarios do not exercise is missed. petgraph/std Vec growth is modelled as (len, cap) with std's amortised rule cap' = max(4, 2*cap, needed), validated by the capacity correspondence only.",
     design="6/C07")
 
